@@ -85,6 +85,8 @@ func checkC03(r *mon.Run) {
 	nMulti := r.Pick(30, 400)
 	chains := []int{3, 9}
 	worlds(r, rng, nMulti, chains, true, func(w *world, wi int, rng *rand.Rand) {
+		srvBuf := make([]byte, 9000)
+		var pend *pending
 		for _, pr := range w.pairs(rng, 0) {
 			for _, f := range w.flows(rng, pr[0], pr[1]) {
 				f := f
@@ -102,9 +104,48 @@ func checkC03(r *mon.Run) {
 				if !judgeRequest(r, w, &f, in, wk, useEPIC) {
 					continue
 				}
-				how := rng.IntN(3)
-				c03Reply(r, rng, w, &f, in, wk, useEPIC, how)
+				how := rng.IntN(4)
+				if how < 3 {
+					c03Reply(r, rng, w, &f, in, wk, useEPIC, how, nil)
+					continue
+				}
+				// api3: the destination is a server on one long-lived receive buffer (as
+				// snet.Conn): it decodes the request with snet.Packet.Decode, computes the
+				// reply path, then reads the NEXT request (another flow, another path)
+				// into the same buffer before it sends the first reply.
+				n := copy(srvBuf, wk.Final)
+				pkt := snet.Packet{Bytes: snet.Bytes(srvBuf[:n])}
+				if err := pkt.Decode(); err != nil {
+					r.Violation("C03:server-decode", "snet.Packet.Decode fails on a delivered packet: "+err.Error(), wit(w, &f, in, wk, ""))
+					continue
+				}
+				rp, ok := pkt.Path.(snet.RawPath)
+				if !ok {
+					r.Inconclusive("server-path-not-raw")
+					continue
+				}
+				dp, err := snet.DefaultReplyPather{}.ReplyPath(rp)
+				if err != nil {
+					r.Violation("C03:reverse-error:api3", "ReplyPath fails: "+err.Error(), wit(w, &f, in, wk, ""))
+					continue
+				}
+				if pend != nil {
+					pend.send()
+				}
+				f2, in2, wk2, epic2 := f, in, wk, useEPIC
+				pend = &pending{send: func() {
+					var sl slayers.SCION
+					if err := dp.SetPath(&sl); err != nil {
+						r.Violation("C03:reverse-error:api3", "SetPath fails: "+err.Error(), wit(w, &f2, in2, wk2, ""))
+						return
+					}
+					c03Reply(r, rng, w, &f2, in2, wk2, epic2, 3, sl.Path)
+				}}
 			}
+		}
+		if pend != nil {
+			pend.send()
+			pend = nil
 		}
 		c03OneHop(r, rng, w)
 	})
@@ -134,8 +175,13 @@ func judgeRequest(r *mon.Run, w *world, f *flow, in []byte, wk *simnet.Walk, epi
 	return true
 }
 
-func c03Reply(r *mon.Run, rng *rand.Rand, w *world, f *flow, in []byte, wk *simnet.Walk, epicReq bool, how int) {
-	rp, err := replyPath(wk.Final, how)
+type pending struct{ send func() }
+
+func c03Reply(r *mon.Run, rng *rand.Rand, w *world, f *flow, in []byte, wk *simnet.Walk, epicReq bool, how int, pre path.Path) {
+	rp, err := pre, error(nil)
+	if pre == nil {
+		rp, err = replyPath(wk.Final, how)
+	}
 	if err != nil {
 		r.Violation(fmt.Sprintf("C03:reverse-error:api%d", how), "reversing a delivered path failed: "+err.Error(), wit(w, f, in, wk, ""))
 		return
